@@ -58,7 +58,11 @@ def make_table(rng, method=None):
     with quiet():
         df = compute_features(sig, fs, (lo, hi), center_extrema=center, burst_method=method, threshold_kwargs=copy.deepcopy(thr),
                               burst_kwargs=copy.deepcopy(bk))
-    return dict(df=df, sig=sig, fs=fs, f_range=(lo, hi), center=center, method=method, thr=thr, bk=bk, family=fam)
+    order = list(thr)
+    if rng.random() < 0.5:
+        order = [order[i] for i in rng.permutation(len(order))]
+    return dict(df=df, sig=sig, fs=fs, f_range=(lo, hi), center=center, method=method, thr=thr, bk=bk, family=fam,
+                thr_order=order, thr_shorthand=bool(rng.random() < 0.4))
 
 
 def choose_xlim(rng, tab, kind):
@@ -317,10 +321,20 @@ def run_summary(sh, tab, xlim, plot_only_result, interp, api='func', driver='sum
     plt.close('all')
     try:
         with quiet():
+            # the thresholds as the caller wrote them: keys in the caller's own order (min_n_cycles anywhere), for the object
+            # optionally with the documented shorthand names ('monotonicity' for 'monotonicity_threshold')
+            order = tab.get('thr_order') or list(thr)
+            thr_call = {k: copy.deepcopy(thr[k]) for k in order if k in thr}
+            thr_call.update({k: copy.deepcopy(v) for k, v in thr.items() if k not in thr_call})
+            if list(thr_call) != list(thr):
+                attach.count('C20:threshold_keys_in_another_order')
             if api == 'func':
-                plot_burst_detect_summary(df, sig, fs, copy.deepcopy(thr), xlim=xlim, plot_only_result=plot_only_result, interp=interp)
+                plot_burst_detect_summary(df, sig, fs, thr_call, xlim=xlim, plot_only_result=plot_only_result, interp=interp)
             else:
-                bm = Bycycle(center_extrema=tab['center'], burst_method=tab['method'], thresholds=copy.deepcopy(thr),
+                if tab.get('thr_shorthand'):
+                    thr_call = {(k[:-len('_threshold')] if k.endswith('_threshold') else k): v for k, v in thr_call.items()}
+                    attach.count('C20:threshold_shorthand_names')
+                bm = Bycycle(center_extrema=tab['center'], burst_method=tab['method'], thresholds=thr_call,
                              burst_kwargs=copy.deepcopy(tab['bk']))
                 bm.load(df, sig, fs, tab['f_range'])
                 bm.plot(xlim=xlim, plot_only_results=plot_only_result, interp=interp)
@@ -383,7 +397,15 @@ def run_summary(sh, tab, xlim, plot_only_result, interp, api='func', driver='sum
     if not vs and not plot_only_result:
         if len(axes) != len(keys) + 1:
             vs.append({'mechanism': 'panel-count', 'message': '%d axes for %d thresholds' % (len(axes), len(keys))})
-        for ax, key in zip(axes[1:], keys):
+        shown = []
+        for pos, ax in enumerate(axes[1:]):
+            # which parameter a panel shows is read from its label, not from its position
+            lab_txt = str(ax.get_ylabel()).lower().replace(' ', '_').replace('\n', '_')
+            hit = [k for k in keys if lab_txt.startswith(k.replace('_threshold', ''))]
+            shown.append(max(hit, key=len) if hit else (keys[pos] if pos < len(keys) else None))
+        if not vs and sorted(k for k in shown if k) != sorted(keys):
+            vs.append({'mechanism': 'panel-set', 'message': 'panels show %s, thresholds given for %s' % (shown, keys)})
+        for ax, key in zip(axes[1:], shown):
             if vs:
                 break
             col = key.replace('_threshold', '')
@@ -435,7 +457,7 @@ def run(sh):
 
 
 def replay(sh, driver, case):
-    tab = {k: case[k] for k in ('df', 'sig', 'fs', 'f_range', 'center', 'method', 'thr', 'bk', 'family') if k in case}
+    tab = {k: case[k] for k in ('df', 'sig', 'fs', 'f_range', 'center', 'method', 'thr', 'bk', 'family', 'thr_order', 'thr_shorthand') if k in case}
     xlim = case.get('xlim')
     xlim = tuple(xlim) if xlim is not None else None
     if driver == 'cyclepoints_df':
